@@ -104,14 +104,24 @@ Proof. unfold keeps. intros (I2 & C2 & K2) (I3 & C3 & K3). split; [exact I3|spli
 Lemma keeps_refl s : inv s -> keeps s s.
 Proof. unfold keeps. tauto. Qed.
 
-Lemma append_range_keeps : forall l s s', inv s -> append_range_m s l = Ok s' -> keeps s s'.
+Lemma push_back_loop_keeps : forall l s s', inv s -> push_back_loop_m s l = Ok s' -> keeps s s'.
 Proof.
-  induction l as [|x l IH]; intros s s' I H; cbn [append_range_m] in H.
+  induction l as [|x l IH]; intros s s' I H; cbn [push_back_loop_m] in H.
   - inversion H; subst. apply keeps_refl. exact I.
   - destruct (push_back_m s x) as [s1| | |] eqn:E; cbn [rbind] in H; try discriminate.
     pose proof (push_back_keeps _ _ _ I E) as K1. eapply keeps_trans; [exact K1|].
     apply IH; [apply K1|exact H].
 Qed.
+
+Lemma append_range_cat_keeps ra l s s' : inv s -> append_range_cat_m ra s l = Ok s' -> keeps s s'.
+Proof.
+  intros I H. unfold append_range_cat_m in H. destruct ra.
+  - destruct (zlen l <=? sz (cap s - get_size s)); [|discriminate]. eapply push_back_loop_keeps; eassumption.
+  - eapply push_back_loop_keeps; eassumption.
+Qed.
+
+Lemma append_range_keeps l s s' : inv s -> append_range_m s l = Ok s' -> keeps s s'.
+Proof. apply append_range_cat_keeps. Qed.
 
 (** * rotate on the character array *)
 Lemma rotate_buf_spec b first mid last b' : 0 <= first <= mid -> mid <= last <= zlen b ->
@@ -190,7 +200,7 @@ Proof. unfold szt, sz. lia. Qed.
 Lemma erase_keeps s index count s' : inv s -> szt index -> szt count ->
   erase_m s index count = Ok s' -> keeps s s'.
 Proof.
-  intros I Hi Hc H. unfold erase_m in H.
+  intros I Hi Hc H. unfold erase_m in H. destruct (index <=? get_size s); [|discriminate].
   apply (erase_range_keeps s index (min_sz count (sz (get_size s - index))) s' I Hi); [|exact H].
   apply min_sz_szt; [exact Hc|apply sz_szt].
 Qed.
@@ -341,7 +351,11 @@ Lemma assign_view_sub_keeps s src pos count s' : inv s -> assign_view_sub_m s sr
 Proof.
   intros I H. pose proof I as (Hc & _). unfold assign_view_sub_m in H.
   destruct (C08.Model.substr_m (arr_view src) pos count) as [sub| | |]; cbn [rbind] in H; try discriminate.
-  apply ctor_ptr_inv in H; [|exact Hc]. unfold keeps. tauto.
+  unfold ctor_range_m in H. destruct (inv_default (cap s) (ckind s) Hc) as (I0 & _).
+  apply (append_range_cat_keeps _ _ _ _ I0) in H. destruct H as (I' & C' & K'). unfold keeps.
+  assert (D : cap (default_str (cap s) (ckind s)) = cap s /\ ckind (default_str (cap s) (ckind s)) = ckind s)
+    by (unfold default_str; destruct (cap s <? 16); split; reflexivity).
+  destruct D as (D1 & D2). split; [exact I'|split; congruence].
 Qed.
 
 Lemma insert_cstr_keeps s index a s' : inv s -> szt index -> cstr_arg_ok a -> insert_cstr_m s index a = Ok s' -> keeps s s'.
@@ -516,7 +530,7 @@ Definition op_wf (o : op) : Prop :=
   | OInsertCstr index a => szt index /\ cstr_arg_ok a
   | OInsertStrSub index _ indexStr count => szt index /\ szt indexStr /\ szt count
   | OErasePos pos => szt pos
-  | OFreeErase _ | OFreeEraseIf _ => True
+  | OFreeErase _ | OFreeEraseIf _ | OAppendRangeIn _ => True
   end.
 
 Lemma step_keeps s o s' : inv s -> op_wf o -> step s o = Ok s' -> keeps s s'.
@@ -555,6 +569,7 @@ Proof.
     inversion H; subst. eapply free_erase_if_keeps; eassumption.
   - destruct (free_erase_if_m _ s) as [[s1 n]| | |] eqn:E; cbn [rbind fst] in H; try discriminate.
     inversion H; subst. eapply free_erase_if_keeps; eassumption.
+  - eapply append_range_cat_keeps; eassumption.
 Qed.
 
 Theorem run_keeps : forall ops s s', inv s -> Forall op_wf ops -> run s ops = Ok s' -> keeps s s'.
